@@ -190,6 +190,9 @@ def h_ternlog(ex, st, insn, ops):
     c = vsrc(ex, st, ops[2], insn, n)
     out = []
     for x, y, zz in zip(a, b, c):
+        if bv.is_aff(x) or bv.is_aff(y) or bv.is_aff(zz):
+            out.append(_ternlog_aff(imm, x, y, zz))
+            continue
         if imm == 0x96:
             out.append(bv.xor(8, bv.xor(8, x, y), zz))
             continue
@@ -200,6 +203,43 @@ def h_ternlog(ex, st, insn, ops):
                 r = bv.or_(8, r, t)
         out.append(r)
     vdst(ex, st, ops[0], insn, out, 8 if insn.mnem.endswith("q") else 4)
+
+
+def _ternlog_aff(imm, x, y, zz):
+    """bitwise ternary logic on affine bytes: allowed iff, per bit, the function restricted to the
+    non-constant inputs is affine over GF(2)"""
+    X, Y, Z = bv.aff_of(8, x).bits, bv.aff_of(8, y).bits, bv.aff_of(8, zz).bits
+    bits = []
+    for i in range(8):
+        ins = [X[i], Y[i], Z[i]]
+        sym = [k for k in range(3) if ins[k] not in (0, 1)]
+
+        def f(vals):
+            idx = (vals[0] << 2) | (vals[1] << 1) | vals[2]
+            return (imm >> idx) & 1
+        base = [v if v in (0, 1) else 0 for v in ins]
+        c0 = f(base)
+        coef = []
+        for k in sym:
+            v = list(base)
+            v[k] = 1
+            coef.append(f(v) ^ c0)
+        # verify affinity on all assignments of the symbolic inputs
+        for m in range(1 << len(sym)):
+            v = list(base)
+            e = c0
+            for j, k in enumerate(sym):
+                bit = (m >> j) & 1
+                v[k] = bit
+                e ^= coef[j] & bit
+            if f(v) != e:
+                raise bv.NonLinear("vpternlog imm %#x is not affine in its symbolic inputs" % imm)
+        r = c0
+        for j, k in enumerate(sym):
+            if coef[j]:
+                r ^= ins[k]
+        bits.append(r)
+    return bv.norm_aff(bv.Aff(bits))
 
 
 # ---------------------------------------------------------------- lane arithmetic
